@@ -54,6 +54,30 @@ fn gen_input(t0: &mut Tape, labels: &mut Vec<String>) -> (Vec<u8>, Vec<Rdh>) {
             n,
             labels,
         );
+        // a quarter of these inputs: some frames lose all their data words (the stave-level checks then describe the empty
+        // frame and quote its closing TDT)
+        if g.chance(1, 4) {
+            let mut emptied = 0;
+            for link in cs.stream.links.iter_mut() {
+                for p in link.packets.iter_mut() {
+                    let Some(i) = p.words.iter().position(|w| w[9] == ID_TDH && w[1] & 0x60 == 0) else { continue };
+                    let Some(len) = p.words[i + 1..].iter().position(|w| !is_data_id(w[9])) else { continue };
+                    if len == 0 || p.words[i + 1 + len][9] != ID_TDT || !mt.chance(1, 3) {
+                        continue;
+                    }
+                    p.words.drain(i + 1..i + 1 + len);
+                    if p.frame_of_word.len() >= i + 1 + len {
+                        p.frame_of_word.drain(i + 1..i + 1 + len);
+                    }
+                    p.fix_sizes();
+                    emptied += 1;
+                }
+            }
+            gen::sanitize_layout(&mut cs.stream);
+            if emptied > 0 {
+                labels.push("mut:frames_emptied".into());
+            }
+        }
         let (bytes, lay) = cs.stream.encode();
         (bytes, rdhs_of(&cs.stream, &lay))
     }
